@@ -45,7 +45,7 @@ def run(ctx, prog):
         if t == g[0].ret or (p.is_ok() and p.took(g[0], 'Ok') and strip(p.term(p.payload())) == ('field', g[0].ret, 0, 'Ok')):
             return None
         return 'returned value is not the gated one'
-    A.require('parse/accepted-value-passes-the-range-gate-without-panicking-conversion', okp, r_parse, replay=R('[parse-'))
+    A.require('parse/accepted-value-passes-the-range-gate-without-panicking-conversion', okp, r_parse, replay=R('[parse'))
 
     for nm in ('checked_add', 'checked_sub'):
         f = prog.one(r'timestamp::<impl at [^>]*>::%s$' % nm)
